@@ -28,7 +28,7 @@ decided (the final clip on the unscaled value is what is required).
 from __future__ import annotations
 
 import ast
-from typing import Dict, List, Optional, Set
+from typing import Dict, List, Optional, Set, Tuple
 
 from vzstatic import cfg as cfgmod
 from vzstatic import flow
@@ -74,6 +74,7 @@ def run(ctx) -> None:
   ctx.rule('R4', 'suggested parameters derive from a clipping decoder or from values enumerated from the config', 10)
   ctx.rule('R5', 'scaler unmap decodes through to_parameter_values; eagle value producers clamp / snap', 3)
   ctx.rule('R6', 'default seeding goes through the validating builder with exactly computed values; midpoint is the mean of the bounds', 4)
+  ctx.rule('R8', 'grid values are decoder output or exact enumerations of the config (no unclamped transcendental arithmetic)', 3)
   ctx.import_rules('C12', {'R6'}, 'R7', 'suggestions are produced for the study of the request: the service keeps no policy (and no search space) between requests')
   mi = ctx.index.module_of_file(C15.CORE)
   C15.r3_decoder(_Relabel(ctx, 'R1'), mi)
@@ -82,6 +83,7 @@ def run(ctx) -> None:
   r4_provenance(ctx)
   r5_eagle(ctx)
   r6_default(ctx)
+  r8_grid_values(ctx)
 
 
 class _Relabel:
@@ -322,39 +324,124 @@ def r5_eagle(ctx) -> None:
               construct=name, func=m.qualname)
 
 
+# ----------------------------------------------------------------------- R8
+def r8_grid_values(ctx) -> None:
+  """The grid values (trusted by R4 as "enumerated from the config") really are: per type arm, every returned
+  list is produced by the clipping decoder, or enumerates bounds / range(bounds) / feasible_values exactly."""
+  ci = ctx.index.need_class('vizier._src.algorithms.designers.grid.GridSearchDesigner')
+  fi = ci.methods.get('_grid_points_from_parameter_config')
+  if fi is None:
+    raise AnalysisError('GridSearchDesigner._grid_points_from_parameter_config not found')
+  g = cfgmod.CFG(fi.node)
+  rd = flow.ReachingDefs(g)
+  prov = flow.Provenance(g, rd, on_call=lambda c: 'all', on_attr=lambda a: 'through')
+  rets = [r for r in ast.walk(fi.node) if isinstance(r, ast.Return) and r.value is not None]
+  if len(rets) < 3:
+    raise AnalysisError(f'_grid_points_from_parameter_config: only {len(rets)} returns (4 on the pinned tree)')
+  for r in rets:
+    o = prov.origins(r.value, g.node_of(r))
+    calls = {(dotted(v.func) or '').split('.')[-1] for k, v in o if k == 'call'}
+    attrs = {(dotted(v) or '') for k, v in o if k == 'attr'}
+    trans = sorted(calls & set(_TRANSCENDENTAL))
+    decoded = bool(calls & {'to_parameter_values', 'to_parameters'})
+    clamped = bool(calls & {'clip'})
+    from_cfg = any(a.endswith(('.bounds', '.feasible_values')) for a in attrs)
+    inst = f'grid values returned at line {r.lineno}'
+    if decoded or (clamped and from_cfg):
+      ctx.ok('R8', inst, r, 'produced by the clipping decoder')
+    elif trans:
+      ctx.bad('R8', inst, r, f'grid points are computed through {trans} and returned without the clipping decoder or a clamp: '
+              'exp(log(bound)) is not always the bound, so end points of LOG / REVERSE_LOG axes land an ulp outside [lo, hi]',
+              construct=f'grid:{trans}', func=fi.qualname)
+    elif from_cfg:
+      ctx.ok('R8', inst, r, 'enumerates bounds / range(bounds) / feasible_values exactly')
+    else:
+      raise AnalysisError(f'grid values at line {r.lineno}: provenance {sorted(calls)} / {sorted(attrs)} not recognised')
+
+
 # ----------------------------------------------------------------------- R6
+_TRANSCENDENTAL = ('exp', 'log', 'log2', 'log10', 'log1p', 'expm1', 'sqrt', 'pow', 'power', 'exp2')
+
+
+def _is_midpoint(e: ast.AST) -> bool:
+  """(X + Y) / 2  |  0.5 * (X + Y)  |  (X + Y) * 0.5  with X, Y the two bounds."""
+  def is_sum(x):
+    return isinstance(x, ast.BinOp) and isinstance(x.op, ast.Add) and \
+        {unparse(x.left, 0)[-10:], unparse(x.right, 0)[-10:]} == {'.bounds[0]', '.bounds[1]'}
+  def const(x, v):
+    return isinstance(x, ast.Constant) and isinstance(x.value, (int, float)) and x.value == v
+  if isinstance(e, ast.BinOp) and isinstance(e.op, ast.Div):
+    return is_sum(e.left) and const(e.right, 2)
+  if isinstance(e, ast.BinOp) and isinstance(e.op, ast.Mult):
+    return (is_sum(e.left) and const(e.right, 0.5)) or (is_sum(e.right) and const(e.left, 0.5))
+  return False
+
+
 def r6_default(ctx) -> None:
   mod = ctx.index.need_module('vizier._src.pythia.suggest_default')
   fi = mod.functions.get('get_default_parameters')
   if fi is None:
     raise AnalysisError('get_default_parameters not found')
-  t = unparse(fi.node, 0)
-  builder = 'SequentialParameterBuilder(' in t and 'return builder.parameters' in t
-  only_choose = not any(isinstance(x, ast.Assign) and any(isinstance(tg, ast.Subscript) and 'parameters' in unparse(tg.value, 0) for tg in x.targets)
-                        for x in ast.walk(fi.node))
-  ctx.check(builder and only_choose, 'R6', 'defaults reach the ParameterDict only through builder.choose_value', fi.node,
-            'SequentialParameterBuilder validates every chosen value (C16.R7)',
-            'default parameters are written into the ParameterDict without the validating builder', construct='builder', func=fi.qualname)
-  g = cfgmod.CFG(fi.node)
-  prov = flow.Provenance(g, on_call=lambda c: 'all', on_attr=lambda a: 'stop')
-  for c in flow.calls_in(fi.node):
-    if (dotted(c.func) or '') == 'builder.choose_value' and c.args:
-      o = prov.origins(c.args[0], g.node_of(c))
-      trans = sorted({(dotted(v.func) or '') for k, v in o if k == 'call' and (dotted(v.func) or '').split('.')[-1] in
-                      ('exp', 'log', 'log2', 'log10', 'log1p', 'expm1', 'sqrt', 'pow', 'power', 'exp2')})
-      clamped = any(k == 'call' and (dotted(v.func) or '').split('.')[-1] in ('clip', 'min', 'max') for k, v in o)
-      ctx.check(not trans or clamped, 'R6', f'choose_value({unparse(c.args[0], 40)}) at line {c.lineno}', c,
-                'computed from the bounds / feasible values with exact arithmetic',
-                f'the seeded value is computed through {trans} without a final clamp: exp(log(x)) round trips overshoot a bound by an ulp '
-                'for singleton or very narrow ranges, so the centre value is not in the domain', construct=f'choose:{trans}', func=fi.qualname)
-  mids = [x for x in ast.walk(fi.node) if isinstance(x, ast.Assign) and any(isinstance(tg, ast.Name) and tg.id == 'midpoint' for tg in x.targets)]
-  ok = bool(mids) and unparse(mids[0].value, 0) in ('(pc.bounds[0] + pc.bounds[1]) / 2', '(pc.bounds[0] + pc.bounds[1]) / 2.0',
-                                                   '0.5 * (pc.bounds[0] + pc.bounds[1])')
-  ctx.check(ok, 'R6', 'continuous default is the arithmetic midpoint of the bounds', fi.node,
-            '(lo + hi) / 2 lies in [lo, hi] exactly in floating point for finite bounds of equal sign scale',
-            f'the centre value is computed as `{unparse(mids[0].value, 60) if mids else "?"}`: transcendental round trips (exp(log(x))) can '
-            'overshoot a bound by an ulp, and SequentialParameterBuilder then refuses or (before validation existed) suggested it',
-            construct='midpoint', func=fi.qualname)
+  # (1) every return hands out `<builder>.parameters` of a SequentialParameterBuilder built in this function
+  builders = set()
+  for n in ast.walk(fi.node):
+    if isinstance(n, ast.Assign) and isinstance(n.value, ast.Call) and (dotted(n.value.func) or '').endswith('SequentialParameterBuilder'):
+      builders |= {t.id for t in n.targets if isinstance(t, ast.Name)}
+  rets = [r for r in ast.walk(fi.node) if isinstance(r, ast.Return) and r.value is not None]
+  if not rets:
+    raise AnalysisError('get_default_parameters: no return found')
+  for r in rets:
+    v = r.value
+    ok = isinstance(v, ast.Attribute) and v.attr == 'parameters' and isinstance(v.value, ast.Name) and v.value.id in builders
+    ctx.check(ok, 'R6', f'return at line {r.lineno}: parameters of the validating builder', r,
+              'SequentialParameterBuilder.choose_value validates every value against its ParameterConfig (C16.R7)',
+              f'`return {unparse(v, 70)}` hands out default/centre values that never went through '
+              'SequentialParameterBuilder.choose_value: an out-of-domain default_value (the factory does not check it) '
+              'becomes the first suggestion instead of being refused', construct='return-bypasses-builder', func=fi.qualname)
+  stores = [x for x in ast.walk(fi.node) if isinstance(x, ast.Assign) and any(
+      isinstance(tg, ast.Subscript) and 'parameters' in unparse(tg.value, 0) for tg in x.targets)]
+  ctx.check(not stores, 'R6', 'no direct store into the builder\'s ParameterDict', stores[0] if stores else fi.node,
+            'values enter only through choose_value', 'default parameters are written into the ParameterDict without validation',
+            construct='direct-store', func=fi.qualname)
+  # (2) the chosen values: follow module-level helpers; no transcendental round trips; midpoint shape
+  exprs: List[Tuple[ast.AST, FuncInfo]] = []
+  def collect(fn: FuncInfo, e: ast.AST, depth=0):
+    if isinstance(e, ast.Call) and isinstance(e.func, ast.Name) and e.func.id in mod.functions and depth < 3:
+      h = mod.functions[e.func.id]
+      for rr in ast.walk(h.node):
+        if isinstance(rr, ast.Return) and rr.value is not None:
+          collect(h, rr.value, depth + 1)
+      return
+    if isinstance(e, ast.Name):
+      defs = [n.value for n in ast.walk(fn.node) if isinstance(n, ast.Assign) and any(isinstance(t, ast.Name) and t.id == e.id for t in n.targets)]
+      if defs and depth < 4:
+        for d in defs:
+          collect(fn, d, depth + 1)
+        return
+    exprs.append((e, fn))
+  chooses = [c for c in flow.calls_in(fi.node) if isinstance(c.func, ast.Attribute) and c.func.attr == 'choose_value'
+             and isinstance(c.func.value, ast.Name) and c.func.value.id in builders and c.args]
+  if not chooses:
+    raise AnalysisError('get_default_parameters: no builder.choose_value call found')
+  for c in chooses:
+    collect(fi, c.args[0])
+  n_mid = 0
+  for e, fn in exprs:
+    trans = sorted({(dotted(x.func) or '').split('.')[-1] for x in ast.walk(e) if isinstance(x, ast.Call)} & set(_TRANSCENDENTAL))
+    clamped = any(isinstance(x, ast.Call) and (dotted(x.func) or '').split('.')[-1] in ('clip', 'min', 'max') for x in ast.walk(e))
+    ctx.check(not trans or clamped, 'R6', f'chosen value `{unparse(e, 50)}`', e,
+              'taken from the config or computed with exact arithmetic',
+              f'the seeded value is computed through {trans} without a final clamp: exp(log(x)) round trips overshoot a bound by an ulp '
+              'for singleton or very narrow ranges, so the centre value is not in the domain', construct=f'choose:{trans}', func=fn.qualname)
+    t = unparse(e, 0)
+    if 'bounds[0]' in t and 'bounds[1]' in t and not trans:
+      n_mid += 1
+      ctx.check(_is_midpoint(e), 'R6', 'continuous default is the arithmetic midpoint of the bounds', e,
+                '(lo + hi) / 2 lies in [lo, hi] for finite bounds',
+                f'the centre value is computed as `{unparse(e, 60)}`, not as the midpoint (lo + hi) / 2 of the bounds',
+                construct='midpoint', func=fn.qualname)
+  if n_mid == 0 and not any('bounds' in unparse(e, 0) for e, _ in exprs):
+    raise AnalysisError('get_default_parameters: centre of a continuous parameter not found')
 
 
 _PF = 'vizier/_src/service/policy_factory.py'
